@@ -348,3 +348,165 @@ def first_diff(a, b):
         if a[i] != b[i]:
             return i
     return n if len(a) != len(b) else -1
+
+
+# ---------------------------------------------------------------------------- client histories
+def c_parse_snapshot(tok):
+    body = tok[2:-1]
+    if not body:
+        return []
+    return [tuple(int(x) for x in e.split(":")) for e in body.split(";")]
+
+
+def c_windows(tokens):
+    out, cur, i = [], [], 0
+    while i < len(tokens):
+        t = tokens[i]
+        if t.startswith("B["):
+            w = "W[]"
+            if i + 1 < len(tokens) and tokens[i + 1].startswith("W["):
+                w = tokens[i + 1]
+                i += 1
+            out.append((cur, c_parse_snapshot(t), w))
+            cur = []
+        else:
+            cur.append(t)
+        i += 1
+    if cur:
+        out.append((cur, None, "W[]"))
+    return out
+
+
+def c_translate(tokens):
+    """client trace -> (model line 'sc ...', expected tokens as a list of per-window lists)"""
+    ops, expect = [], []
+    for evs, snap, wtok in c_windows(tokens):
+        teardown = "C" in evs
+        w_exp = []
+        for t in evs:
+            k, f = t[0], t.split(":")
+            if t.startswith("NC:"):
+                ops.append("n")
+                w_exp.append("CN:%s" % f[1])
+            elif k == "F":
+                w_exp.append("CF:%s" % f[1])
+            elif k in "+-" and len(f) == 3:
+                if teardown and f[2] == "2":
+                    continue
+                ops.append(t)
+            elif k == "C":
+                ops.append("F")
+        if teardown:
+            w_exp = sorted(w_exp)      # order of releases inside coap_free_context is not compared
+        expect.append(w_exp)
+        if snap is not None:
+            ops.append("B")
+            expect.append(["B[" + ";".join("%d:%d" % e for e in sorted(snap)) + "]"])
+    return "sc " + " ".join(ops), expect
+
+
+def c_split_model(tokens_str):
+    """model output -> per-window lists comparable with c_translate's expectation"""
+    out, cur = [], []
+    for t in tokens_str.split():
+        if t.startswith("B["):
+            out.append(cur)
+            out.append([t])
+            cur = []
+        else:
+            cur.append(t)
+    if cur:
+        out.append(cur)
+    return out
+
+
+def c_oracles(tokens, stats):
+    bad = []
+    live = set()
+    ref = {}
+    appref = {}
+    facts = {"sessions": 0, "freed_on_release": 0, "freed_at_teardown": 0, "lib_refs": 0,
+             "extra_app_refs_at_free": 0, "explicit_free": False, "left": []}
+    for evs, snap, wtok in c_windows(tokens):
+        teardown = "C" in evs
+        for t in evs:
+            k, f = t[0], t.split(":")
+            if t.startswith("NC:"):
+                sid = int(f[1])
+                live.add(sid)
+                ref[sid] = 1
+                appref[sid] = 1
+                facts["sessions"] += 1
+            elif k == "+":
+                sid = int(f[1])
+                if sid not in live:
+                    bad.append(("uaf", "reference taken on released session %d" % sid))
+                ref[sid] = ref.get(sid, 0) + 1
+                if f[2] == "1":
+                    appref[sid] = appref.get(sid, 0) + 1
+                else:
+                    facts["lib_refs"] += 1
+            elif k == "-":
+                sid = int(f[1])
+                if sid not in live:
+                    bad.append(("uaf", "reference dropped on released session %d" % sid))
+                ref[sid] = ref.get(sid, 0) - 1
+                if f[2] == "1":
+                    appref[sid] = appref.get(sid, 0) - 1
+            elif k == "F":
+                sid = int(f[1])
+                r_, nq, nobs, nas, napp = (int(x) for x in f[2:7])
+                if teardown:
+                    facts["freed_at_teardown"] += 1
+                    if r_ != 1 or nq or napp > 1:
+                        bad.append(("freed-held", "client session %d released at teardown: ref=%d "
+                                    "queue=%d app=%d" % (sid, r_ - 1, nq, napp)))
+                else:
+                    facts["freed_on_release"] += 1
+                    if r_ != 1 or nq or nobs or nas or napp or ref.get(sid, 0) != 0:
+                        bad.append(("freed-held", "client session %d released while referenced: ref=%d "
+                                    "queue=%d app=%d counted=%d" % (sid, r_ - 1, nq, napp, ref.get(sid, 0))))
+                live.discard(sid)
+            elif k == "H":
+                sid = int(f[2])
+                if sid not in live:
+                    bad.append(("handler", "handler ran on released client session %d" % sid))
+            elif k == "U":
+                bad.append(("uaf", "released session %s used: %s" % (f[2] if len(f) > 2 else "?", f[1])))
+            elif k == "C":
+                facts["explicit_free"] = True
+                left = sorted(s for s in live if appref.get(s, 0) > 1)
+                facts["left"] = left
+                facts["extra_app_refs_at_free"] = len(left)
+                for sid in sorted(live):
+                    if sid not in left:
+                        bad.append(("teardown", "client session %d not released by coap_free_context" % sid))
+        if snap is None:
+            continue
+        w = {}
+        body = wtok[2:-1]
+        if body:
+            for e in body.split(";"):
+                g = [int(x) for x in e.split(":")]
+                w[g[0]] = (g[1], g[2])
+        seen = set()
+        for (sid, r_) in snap:
+            seen.add(sid)
+            nq, napp = w.get(sid, (0, 0))
+            if r_ != nq + napp:
+                bad.append(("refcount", "client session %d: ref=%d but queue=%d app=%d" % (sid, r_, nq, napp)))
+            if r_ != ref.get(sid, 0):
+                bad.append(("refcount", "client session %d: ref=%d but %d references counted"
+                            % (sid, r_, ref.get(sid, 0))))
+            if r_ == 0:
+                bad.append(("idle-client", "client session %d has ref 0 and still exists" % sid))
+            if sid not in live:
+                bad.append(("zombie", "released client session %d still in context->sessions" % sid))
+        if not facts["explicit_free"]:
+            for sid in live:
+                if sid not in seen:
+                    bad.append(("lost", "client session %d neither released nor in the table" % sid))
+    for k in ("uaf_writes", "bad_frees", "uaf_marks"):
+        if int(stats.get(k, "0")):
+            bad.append((k, "%s=%s" % (k, stats[k])))
+    return bad, facts
